@@ -745,6 +745,14 @@ def parse_template(ex, target, toks):
             else:
                 cur.append(x)
         return Punct(items, 'Plus')
+    if 'TypeParamBound' in t:
+        if len(toks) == 1 and toks[0][0] == 'LT':
+            return A.bound_lifetime(A.lifetime(toks[0][1], origin='macro'))
+        if toks:
+            return A.bound_verbatim(toks)
+        raise PanicExc('parse_quote!', 'cannot parse an empty token stream as a bound')
+    if 'WherePredicate' in t or 'Lifetime' in t or re.search(r'\b(Path|Expr|Stmt|Block|Item\w*|Attribute|Visibility|Generics|WhereClause)\b', t):
+        raise Unsupported('parse_quote target ' + t)
     if re.search(r'\bPat\b', t):
         if len(toks) == 1 and is_i(toks[0]):
             tk = toks[0]
